@@ -165,7 +165,11 @@ pub struct RollingFileAppender {
 impl Append for RollingFileAppender {
     fn append(&self, record: &Record) -> anyhow::Result<()> {
         // TODO(eas): Perhaps this is better as a concurrent queue?
+        #[cfg(feature = "verif_hooks")]
+        crate::verif::before_lock("rf.lock", &|| self.writer.is_locked());
         let mut writer = self.writer.lock();
+        #[cfg(feature = "verif_hooks")]
+        crate::verif::point("rf.locked");
 
         let is_pre_process = self.policy.is_pre_process();
         let log_writer = self.get_writer(&mut writer)?;
@@ -183,13 +187,23 @@ impl Append for RollingFileAppender {
             // data that comes in while we are processing the file rotation.
 
             self.policy.process(&mut file)?;
+            #[cfg(feature = "verif_hooks")]
+            crate::verif::point("rf.pre.processed");
 
             let log_writer_new = self.get_writer(&mut writer)?;
             self.encoder.encode(log_writer_new, record)?;
+            #[cfg(feature = "verif_hooks")]
+            crate::verif::point("rf.pre.encoded");
             log_writer_new.flush()?;
+            #[cfg(feature = "verif_hooks")]
+            crate::verif::point("rf.pre.flushed");
         } else {
             self.encoder.encode(log_writer, record)?;
+            #[cfg(feature = "verif_hooks")]
+            crate::verif::point("rf.post.encoded");
             log_writer.flush()?;
+            #[cfg(feature = "verif_hooks")]
+            crate::verif::point("rf.post.flushed");
             let len = log_writer.len;
 
             let mut file = LogFile {
@@ -218,6 +232,8 @@ impl RollingFileAppender {
 
     fn get_writer<'a>(&self, writer: &'a mut Option<LogWriter>) -> io::Result<&'a mut LogWriter> {
         if writer.is_none() {
+            #[cfg(feature = "verif_hooks")]
+            crate::verif::fs_step("rf.open", &self.path, None)?;
             let file = OpenOptions::new()
                 .write(true)
                 .append(self.append)
